@@ -127,7 +127,16 @@ func c17Tasks(thorough bool) []c17Task {
 		depth = 3
 	}
 	for _, h := range c17Generated(depth) {
-		ts = append(ts, c17Task{h, 0, 1})
+		// The goroutines of a frozen world never end and keep its file system alive (a few MB per
+		// crash point, more with large values): a worker process handles a bounded share.
+		total := 0
+		for _, op := range h.Ops {
+			total += op.Size
+		}
+		of := 1 + total/250_000
+		for sh := 0; sh < of; sh++ {
+			ts = append(ts, c17Task{h, sh, of})
+		}
 	}
 	return ts
 }
@@ -706,7 +715,11 @@ func runC17(r *mc.Report, e *Env) {
 	r.Assume("crash model: fail-stop at file-system operation boundaries, or inside one file Write after a prefix of 1 byte / half / all but one byte of its buffer; unsynced state (pebble's strict MemFS) is lost per unit — each file's unsynced tail on its own, the unsynced directory entries (creations, removals, renames) together, in order: all kept, all dropped, and mixtures (thorough: every subset when at most 5 units differ, otherwise and in the quick tier the subsets one unit away from either extreme); quick tier tears with all unsynced data kept only")
 	r.Assume("either byte order of the farthest retained key is accepted as the re-derived radius (which one is C06's question)")
 	tasks := c17Tasks(e.Thorough())
-	r.Set("histories", len(c17Histories)+(len(tasks)-len(c17Histories)*c17Shards))
+	nh := map[string]bool{}
+	for _, t := range tasks {
+		nh[t.H.Name] = true
+	}
+	r.Set("histories", len(nh))
 	for ti := range tasks {
 		{
 			if e.Of > 1 && e.Shard != ti {
@@ -733,7 +746,7 @@ func runC17(r *mc.Report, e *Env) {
 				if sh == 0 {
 					r.Max("max_write_ops_in_a_history", n1)
 					r.Count("crash_points", n1)
-					if !strings.HasPrefix(h.Name, "gen:") || ti%97 == 0 {
+					if !strings.HasPrefix(h.Name, "gen:") || len(h.Name)%13 == 0 {
 						r.Sample(map[string]any{"history": h.Name, "small_memtable": small, "puts": h.Ops, "write_ops": n1})
 					}
 				}
